@@ -248,8 +248,13 @@ class ImplRaised(Exception):
         self.cls, self.msg, self.where = cls, msg, where
 
 
+_IMPL_CALLS = 0
+
+
 def impl(f, *a, **k):
     """call into cooler; an exception there is attributed to the implementation (-> mismatch)"""
+    global _IMPL_CALLS
+    _IMPL_CALLS += 1
     try:
         return f(*a, **k)
     except Infra:
@@ -286,6 +291,7 @@ def _worker_init(modname):
 def _worker_run(item):
     name, case = item
     t0 = time.time()
+    calls0 = _IMPL_CALLS
     try:
         res = _MOD.CHECKS[name](case)
     except Infra as e:
@@ -293,6 +299,16 @@ def _worker_run(item):
     except ImplRaised as e:
         res = {"mismatch": True, "impl_raised": e.cls, "message": e.msg, "where": e.where,
                "note": "the implementation raised where the model/spec yields a value"}
+    except (ValueError, TypeError, KeyError, IndexError, OverflowError, AttributeError) as e:
+        # Marshalling the implementation's output failed AFTER the implementation was called in this case (e.g. NaN where an
+        # integer id is expected): the output is not of the documented form.  This never happens on the unchanged tree
+        # (every tier is swept there), so it is attributed to the implementation, with the traceback in the replay.
+        if _IMPL_CALLS > calls0:
+            res = {"mismatch": True, "unmarshallable_output": errclass(e), "message": str(e)[:300],
+                   "where": traceback.format_exc()[-900:],
+                   "note": "the implementation returned a value the harness cannot canonicalise (not of the documented form)"}
+        else:
+            return (name, case, {"infra": traceback.format_exc()[-3000:]}, time.time() - t0)
     except Exception:  # a crash of the harness itself is infrastructure, not a verdict
         return (name, case, {"infra": traceback.format_exc()[-3000:]}, time.time() - t0)
     return (name, case, res, time.time() - t0)
@@ -301,11 +317,17 @@ def _worker_run(item):
 def run_check(fn, case):
     """run one check function; returns None (agrees) or the mismatch dict.  An exception raised by the
     implementation (through `impl`) is a mismatch."""
+    calls0 = _IMPL_CALLS
     try:
         r = fn(case)
     except ImplRaised as e:
         return {"mismatch": True, "impl_raised": e.cls, "message": e.msg, "where": e.where,
                 "note": "the implementation raised where the model/spec yields a value"}
+    except (ValueError, TypeError, KeyError, IndexError, OverflowError, AttributeError) as e:
+        if _IMPL_CALLS > calls0:
+            return {"mismatch": True, "unmarshallable_output": errclass(e), "message": str(e)[:300],
+                    "note": "the implementation returned a value the harness cannot canonicalise"}
+        raise
     if isinstance(r, dict) and r.get("mismatch"):
         return r
     return None
